@@ -154,3 +154,47 @@ mod ladder {
     //@ h=agg_ladder_256 props=C07,C01 cfgs=K6 tier=q t=900 submod=ladder | funcs: bucket_aggregation::aggregate_256 with run-time dispatch | bound: as agg_ladder_48 | stubs: as agg_ladder_48
     ladder!(agg_ladder_256, aggregate_256, 64, 256, t_avx2_256, t_ssse3_256, t_sse2_256);
 }
+
+// K6s: static selection of the aggregation backend (SSE2 with the default x86_64 target features).
+#[cfg(all(feature = "opt-simd-bucket-aggregation", not(feature = "detect-features"),
+          target_arch = "x86_64", target_feature = "sse2", not(target_feature = "ssse3")))]
+mod static_sel {
+    #![allow(unsafe_code)]
+    #![allow(static_mut_refs)]
+    use super::super::*;
+    static mut CALLED: u8 = 0;
+    unsafe fn t48(out: &mut [u8; 12], _b: &[u32; 48], _q1: u32, _q2: u32, _q3: u32) {
+        CALLED = 1;
+        out[0] = 0xA1;
+    }
+    unsafe fn t128(out: &mut [u8; 32], _b: &[u32; 128], _q1: u32, _q2: u32, _q3: u32) {
+        CALLED = 2;
+        out[0] = 0xA2;
+    }
+    unsafe fn t256(out: &mut [u8; 64], _b: &[u32; 256], _q1: u32, _q2: u32, _q3: u32) {
+        CALLED = 3;
+        out[0] = 0xA3;
+    }
+    //@ h=agg_static props=C07 cfgs=K6s tier=q t=600 submod=static_sel | funcs: bucket_aggregation::aggregate_48/128/256 with compile-time backend selection | bound: all arguments: the entry points call the SSE2 backend (whose correctness is agg_sse2_*) | stubs: x86_sse2::aggregate_* -> tagging stubs
+    #[kani::proof]
+    #[kani::unwind(4)]
+    #[kani::stub(super::super::x86_sse2::aggregate_48, t48)]
+    #[kani::stub(super::super::x86_sse2::aggregate_128, t128)]
+    #[kani::stub(super::super::x86_sse2::aggregate_256, t256)]
+    fn agg_static() {
+        let (q1, q2, q3): (u32, u32, u32) = (kani::any(), kani::any(), kani::any());
+        kani::assume(q1 <= q2 && q2 <= q3);
+        let b48: [u32; 48] = kani::any();
+        let mut o48 = [0u8; 12];
+        aggregate_48(&mut o48, &b48, q1, q2, q3);
+        assert!(o48[0] == 0xA1 && unsafe { CALLED } == 1);
+        let b128: [u32; 128] = kani::any();
+        let mut o128 = [0u8; 32];
+        aggregate_128(&mut o128, &b128, q1, q2, q3);
+        assert!(o128[0] == 0xA2 && unsafe { CALLED } == 2);
+        let b256: [u32; 256] = kani::any();
+        let mut o256 = [0u8; 64];
+        aggregate_256(&mut o256, &b256, q1, q2, q3);
+        assert!(o256[0] == 0xA3 && unsafe { CALLED } == 3);
+    }
+}
